@@ -1287,3 +1287,75 @@ def lower17(ctx) -> List[Ob]:
         if isinstance(val, ast.Dict) and val.keys and all(k is not None and (A.dotted(k) or "").startswith("ast.") for k in val.keys) and all((A.dotted(v) or "").startswith("ast.") for v in val.values):
             out.append(bad("LOWER-17", "<module>", f"operator table {name}", f"{mod.relpath}:{A.lineno(val)}", f"module-level table {name} maps syntax node classes to other syntax node classes: the lowering rewrites the user's operators"))
     return out
+
+
+@rule("LOWER-18", 1, "the if-cascade of a branching block has one arm per successor: the block whose code an arm holds is looked up from the block's jump targets, never from the entries of the value table (several control values may select one successor - its code would be generated once per value)")
+def lower18(ctx) -> List[Ob]:
+    out: List[Ob] = []
+    cg = _codegen(ctx)
+    scopes = [cg] + [f for f in ctx.prog.functions if f.parent_fn is cg]
+    # names derived from the value table / from the jump targets, by a small fixpoint over assignments, loop
+    # targets, comprehension targets and the parameters of the nested helpers (bound at their call sites)
+    table, succ = set(), set()
+
+    def mentions(e, names, attr):
+        for n in ast.walk(e):
+            if isinstance(n, ast.Attribute) and n.attr == attr:
+                return True
+            if isinstance(n, ast.Name) and n.id in names:
+                return True
+        return False
+
+    for _ in range(6):
+        before = (len(table), len(succ))
+        for f in scopes:
+            for n in A.walk_no_nested(f.node):
+                pairs = []
+                if isinstance(n, ast.Assign):
+                    for t in n.targets:
+                        pairs.append((t, n.value))
+                elif isinstance(n, ast.For):
+                    pairs.append((n.target, n.iter))
+                elif isinstance(n, ast.comprehension):
+                    pairs.append((n.target, n.iter))
+                for t, v in pairs:
+                    names = {x.id for x in ast.walk(t) if isinstance(x, ast.Name)}
+                    # `reverse[target].append(value)`-style tables keyed by target are not successor sources
+                    if mentions(v, table, "branch_value_table") and not mentions(v, set(), "jump_targets"):
+                        table |= names
+                    if mentions(v, succ, "jump_targets") and not mentions(v, set(), "branch_value_table"):
+                        succ |= names
+            # parameters of nested helpers
+            for g in scopes[1:]:
+                params = [p.arg for p in g.params]
+                for f2 in scopes:
+                    for c in A.walk_no_nested(f2.node):
+                        if isinstance(c, ast.Call) and isinstance(c.func, ast.Name) and c.func.id == g.name:
+                            for p_, a_ in zip(params, c.args):
+                                if mentions(a_, table, "branch_value_table") and not mentions(a_, set(), "jump_targets"):
+                                    table.add(p_)
+                                if mentions(a_, succ, "jump_targets") and not mentions(a_, set(), "branch_value_table"):
+                                    succ.add(p_)
+        if (len(table), len(succ)) == before:
+            break
+    table -= succ & table if False else set()
+    n = 0
+    for f in scopes:
+        for c in A.walk_no_nested(f.node):
+            if not (isinstance(c, ast.Call) and isinstance(c.func, ast.Attribute) and c.func.attr == "lookup" and c.args):
+                continue
+            arg = c.args[0]
+            names = {x.id for x in ast.walk(arg) if isinstance(x, ast.Name)}
+            from_table = bool(names & table) or mentions(arg, set(), "branch_value_table")
+            from_succ = bool(names & succ) or mentions(arg, set(), "jump_targets")
+            if not (from_table or from_succ):
+                continue
+            n += 1
+            key = "arm body looked up from: " + A.alpha_key(c)
+            if from_table and not from_succ:
+                out.append(bad("LOWER-18", f.qualname, key, ctx.where(f, c), f"{A.unparse(c)[:50]} takes the block of an arm from the entries of the value table: a successor selected by several control values gets one arm - and one copy of its whole region's code - per value"))
+            else:
+                out.append(ok("LOWER-18", f.qualname, key, ctx.where(f, c), "the arm's block comes from the jump targets (one arm per successor)"))
+    if n == 0:
+        out.append(unresolved("LOWER-18", cg.qualname, "arm body looked up from", ctx.where(cg), "no lookup of a successor found in the branching arm of codegen"))
+    return out
